@@ -6,6 +6,7 @@ every stream type, every list of allowed codes and every grace period `g` (the c
 regenerated into `ConfModel.Generated.C03Facts.grace` on every run).
 -/
 import ConfModel.Lemmas.Assert
+import ConfModel.Model.AssertPath
 namespace ConfModel.Props.C03
 open ConfModel.Assert ConfModel.Agree
 
@@ -363,5 +364,107 @@ example :
       [⟨"x-t", ["1".toList, "3".toList]⟩], 0, none⟩
     assert 500 .serverStream [] e a =
       [.detail 2, .timeoutRange, .payloadData 3, .headerValues .responseTrailers "x-t"] := by decide
+
+/-! ### The path from the client runner to `assert` (`runTestCasesForServer`, per test case)
+
+`AssertPath.deliver` is the loop body and the callback of `runTestCasesForServer`, statement by
+statement; `Flags` are the arguments that select logging (`-vv`), tracing and the reference-mode
+bookkeeping.  The correspondence run drives the real function with replies decoded from wire bytes
+(slices with spare capacity) and compares verdict, discrepancies, log lines and side-band with
+`deliver`, and the reply object after the run with a deep copy taken before. -/
+
+open ConfModel.AssertPath in
+/-- **The verdict does not depend on the logging / tracing / reference-mode flags**: for every
+reply of the client runner, every expected result and any two settings of the flags. -/
+theorem path_verdict_flag_independent (f f' : Flags) (g : Int) (st : StreamType) (other : List Nat)
+    (e : Result) (reply : Reply) :
+    (deliver f g st other e reply).verdict = (deliver f' g st other e reply).verdict := by
+  cases reply <;> cases f <;> cases f' <;> rename_i l _ _ _ l' _ _ _ <;> cases l <;> cases l' <;> rfl
+
+open ConfModel.AssertPath in
+/-- A reported result reaches `assert` untouched: what is recorded is what `assert` says about the
+result the client reported, whatever the flags and the feedback lines. -/
+theorem path_response_is_assert (f : Flags) (g : Int) (st : StreamType) (other : List Nat)
+    (e a : Result) (fb : List String) :
+    (deliver f g st other e (.response a fb)).verdict = .asserted (assert g st other e a) := by
+  cases f; rename_i l _ _ _; cases l <;> rfl
+
+open ConfModel.AssertPath in
+/-- The callback leaves the reply object as it found it (every statement that is handed the reply
+returns it unchanged), for every reply and every setting of the flags. -/
+theorem path_preserves_reply (f : Flags) (g : Int) (st : StreamType) (other : List Nat)
+    (e : Result) (reply : Reply) : (deliver f g st other e reply).after = reply := by
+  cases reply <;> cases f <;> rename_i l _ r _ <;> cases l <;> cases r <;> rfl
+
+open ConfModel.AssertPath in
+/-- **End to end**: under `WellFormed`, a test case whose client reported a result is recorded as
+passed exactly when the reported result agrees with the expected one up to the documented
+leniencies — in every logging / tracing / reference mode. -/
+theorem path_passed_iff_agree (f : Flags) (g : Int) (st : StreamType) (other : List Nat)
+    (e a : Result) (fb : List String) (hw : WellFormed e a) :
+    (deliver f g st other e (.response a fb)).verdict.passed = true ↔ Agree g st other e a := by
+  rw [path_response_is_assert, ← assert_nil_iff g st other e a hw]
+  cases assert g st other e a <;> simp [Verdict.passed]
+
+open ConfModel.AssertPath in
+/-- non-vacuity: very verbose, traced, both reference modes; the pair of `assert_nil_iff`'s example
+passes, and the same reply with the expected header reported as a trailer does not -/
+example :
+    let f : Flags := ⟨true, true, true, true⟩
+    let e : Result := ⟨[⟨"X-A", ["1".toList, "2".toList]⟩], [⟨[1, 2], none⟩], none, [], 0, some 200⟩
+    let a : Result := ⟨[⟨"x-a", ["1, 2".toList]⟩, ⟨"vary", []⟩, ⟨"Vary", []⟩], [⟨[1, 2], none⟩], none, [⟨"extra", []⟩], 3, none⟩
+    let b : Result := ⟨[⟨"vary", []⟩, ⟨"Vary", []⟩, ⟨"z", []⟩], [⟨[1, 2], none⟩], none, [⟨"x-a", ["1, 2".toList]⟩], 3, none⟩
+    (deliver f 500 .serverStream [] e (.response a ["fb"])).verdict.passed = true ∧
+    (deliver f 500 .serverStream [] e (.response b ["fb"])).verdict
+      = .asserted [.headerMissing .responseHeaders "x-a"] ∧
+    (deliver f 500 .serverStream [] e (.response b ["fb"])).after = .response b ["fb"] := by decide
+
+open ConfModel.AssertPath in
+/-- No reply other than a reported result can make a test case pass. -/
+theorem path_passed_only_response (f : Flags) (g : Int) (st : StreamType) (other : List Nat)
+    (e : Result) (reply : Reply) (h : (deliver f g st other e reply).verdict.passed = true) :
+    ∃ a fb, reply = .response a fb ∧ assert g st other e a = [] := by
+  cases reply with
+  | response a fb =>
+    refine ⟨a, fb, rfl, ?_⟩
+    rw [path_response_is_assert] at h
+    cases hd : assert g st other e a with
+    | nil => rfl
+    | cons x xs => rw [hd] at h; simp [Verdict.passed] at h
+  | _ => cases f; rename_i l _ _ _; cases l <;> simp [deliver, logSending, logReceived, record, feedback, Verdict.passed] at h
+
+open ConfModel.AssertPath in
+example : ∃ a fb, (AssertPath.Reply.response ⟨[], [], none, [], 0, none⟩ ["x"]) = .response a fb ∧
+    assert 500 .unary [] ⟨[], [], none, [], 0, none⟩ a = [] := ⟨_, _, rfl, by decide⟩
+
+open ConfModel.AssertPath in
+/-- The log lines are a function of `logEach` and of whether a result was obtained only: nothing
+is logged without `-vv`, and the flags other than `logEach` never change the log. -/
+theorem path_log_only_logEach (f f' : Flags) (g : Int) (st : StreamType) (other : List Nat)
+    (e : Result) (reply : Reply) (h : f.logEach = f'.logEach) :
+    (deliver f g st other e reply).log = (deliver f' g st other e reply).log ∧
+    (f.logEach = false → (deliver f g st other e reply).log = []) := by
+  cases f; cases f'; simp only at h; subst h
+  rename_i l _ _ _ _ _ _
+  cases reply <;> cases l <;> simp [deliver, logSending, logReceived]
+
+open ConfModel.AssertPath in
+example : (deliver ⟨true, false, false, false⟩ 500 .unary [] default .neither).log = [.sending, .received] ∧
+    (deliver ⟨true, false, false, false⟩ 500 .unary [] default .noResult).log = [.sending] := by decide
+
+open ConfModel.AssertPath in
+/-- A whole batch (the test cases of one server instance): the verdicts are independent of the flags
+and every reply is left as it was. -/
+theorem path_batch_flag_independent (f f' : Flags) (g : Int)
+    (cases : List (StreamType × List Nat × Result × Reply)) :
+    (deliverAll f g cases).map (·.verdict) = (deliverAll f' g cases).map (·.verdict) ∧
+    (deliverAll f g cases).map (·.after) = cases.map (fun c => c.2.2.2) := by
+  induction cases with
+  | nil => exact ⟨rfl, rfl⟩
+  | cons c rest ih =>
+    obtain ⟨st, other, e, reply⟩ := c
+    simp only [deliverAll, List.map_cons]
+    rw [ih.1, ih.2, path_verdict_flag_independent f f', path_preserves_reply]
+    exact ⟨rfl, rfl⟩
 
 end ConfModel.Props.C03
